@@ -7,6 +7,7 @@ specification — the Lean decoder, reference type inference, SHA-256 roots and 
 theorems below make that specification precise and tie its tables to both sources: *partial*.
 -/
 import SimplicityModel.Props.C02
+import SimplicityModel.BoundsTie
 import SimplicityModel.Props.C14
 import SimplicityModel.Prog.MerkleProps
 import SimplicityModel.IvsImr
@@ -51,6 +52,12 @@ theorem jet_tables_agree : type_of% Props.C14.elements_eq_C := Props.C14.element
 `src/analysis.rs` (regenerated on every run). -/
 theorem cost_overhead_as_in_source : Gen.Consts.OVERHEAD = Prog.OVERHEAD ∧ Gen.Consts.NEVER_EXECUTED = 0 := by
   decide
+
+/-- **Same cost formulas**: the static cost the specification assigns to a redemption-time node is the
+`cost` field that `RedeemData::new` obtains from the `NodeBounds` constructor of that node kind
+(src/analysis.rs, regenerated on every run), applied to the children's costs and the widths of the
+arrows. -/
+theorem cost_formulas_as_in_source : type_of% @BoundsTie.annot_cost := @BoundsTie.annot_cost
 
 /-- the cost bound of a `case` is overhead + the larger branch; of `comp` overhead + middle width +
 both (saturating at 2^32 − 1): read off `annotNode` -/
